@@ -36,7 +36,7 @@ def gen_case(rng, tier, i):
         ctor["boundary"] = rng.choice(RULES)
     else:
         ctor["boundary"] = {a["name"]: rng.choice(RULES) for a in layout.axes}
-    if rng.random() < 0.5:
+    if rng.random() < 0.65:
         if rng.random() < 0.5:
             ctor["fill_value"] = fillv(rng)
         else:
@@ -85,9 +85,9 @@ def gen_case(rng, tier, i):
     elif r < 0.65:
         call["boundary"] = {a["name"]: rng.choice(RULES) for a in layout.axes if rng.random() < 0.6}
     r = rng.random()
-    if r < 0.35:
+    if r < 0.25:
         call["fill_value"] = fillv(rng)
-    elif r < 0.65:
+    elif r < 0.45:
         call["fill_value"] = {a["name"]: fillv(rng) for a in layout.axes if rng.random() < 0.6}
     return {"layout": {"axes": layout.axes, "extra": layout.extra}, "ctor": ctor,
             "dims": [d for d, _ in dims], "data": data.tolist(), "call": call}
